@@ -313,3 +313,107 @@ Proof.
   - apply (raceb_race _ _ 2 s 0 1); [lia|lia|discriminate|].
     vm_compute in E. inversion E; subst. vm_compute. reflexivity.
 Qed.
+
+(* ------------------------------------------------------------------ *)
+(* P2: positionalRelation.getMeta / computeIndex *)
+Section RelposP.
+  Variable key : tid -> nat.
+  Variable fn : nat -> positive.
+  Notation progs := (relpos_progs key fn).
+
+  Definition relpos_G (s : shared) : Prop :=
+    (on s 0 = ODone -> mem s 0 = 1%Z) /\
+    (forall k, mem s (S k) <> 0%Z -> mem s (S k) = Zpos (fn k)).
+  Definition relpos_A (t : tid) (ts : tstate) (s : shared) : Prop :=
+    match pc ts with
+    | 1 => on s 0 = ORunning t
+    | 2 => on s 0 = ORunning t /\ regs ts 1 = 1%Z
+    | 3 => on s 0 = ORunning t /\ mem s 0 = 1%Z
+    | 4 => on s 0 = ODone
+    | 6 => lk s 0 = Some t
+    | 7 => lk s 0 = Some t /\ regs ts 0 = mem s (S (key t))
+    | 8 => lk s 0 = Some t
+    | 9 => lk s 0 = Some t /\ regs ts 0 = Zpos (fn (key t))
+    | 10 => lk s 0 = Some t /\ regs ts 0 = Zpos (fn (key t))
+    | 11 => regs ts 0 = Zpos (fn (key t))
+    | _ => True
+    end.
+
+  Lemma relpos_init : relpos_G sh0 /\ forall t, relpos_A t ts0 sh0.
+  Proof. split; [split; [discriminate|intros k H; now elim H]|]. intro t; exact I. Qed.
+
+  Lemma relpos_local : forall N t ts s ts' s', t < N -> relpos_G s -> relpos_A t ts s ->
+      exec (progs t) t ts s = Some (ts', s') -> relpos_G s' /\ relpos_A t ts' s'.
+  Proof.
+    intros N t [p rg w] s ts' s' _ [G1 G2] HA He.
+    unfold relpos_progs, relpos_G, relpos_A, exec, p_relpos in *; simpl pc in *.
+    destr_pc p; simpl in He; exec_inv He; tests; simpl in *; unfold upd in *; simpl in *;
+      try (intuition (try congruence; try lia); fail).
+    all: try (destruct HA as [H1 H2]; repeat split; auto;
+              try (intros k; destruct (Nat.eqb_spec (key t) k); subst; auto; congruence);
+              try (rewrite Nat.eqb_refl; auto); fail).
+    destruct HA as [H1 H2]. repeat split; auto. rewrite H2. apply G2. congruence.
+  Qed.
+
+  Lemma relpos_interf : forall N t u ts tu s ts' s', t < N -> t <> u -> relpos_G s -> relpos_A t ts s -> relpos_A u tu s ->
+      exec (progs t) t ts s = Some (ts', s') -> relpos_A u tu s'.
+  Proof.
+    intros N t u [p rg w] [p' rg' w'] s ts' s' _ Hne [G1 G2] HA HB He.
+    unfold relpos_progs, relpos_G, relpos_A, exec, p_relpos in *; simpl pc in *.
+    destr_pc p; simpl in He; exec_inv He; tests; destr_pc p'; fin.
+  Qed.
+
+  Lemma relpos_excl : forall t u ts tu s x y w1 w2, t <> u -> relpos_G s -> relpos_A t ts s -> relpos_A u tu s ->
+      access (progs t) ts = Some (x, w1) -> access (progs u) tu = Some (y, w2) ->
+      relpos_loc x = relpos_loc y -> (w1 || w2) = false.
+  Proof.
+    intros t u [p rg w] [p' rg' w'] s x y w1 w2 Hne [G1 G2] HA HB Ha Hb Hl.
+    unfold relpos_progs, relpos_G, relpos_A, access, p_relpos in *; simpl pc in *.
+    destr_pc p; simpl in Ha; try discriminate Ha; inversion Ha; subst; clear Ha;
+    destr_pc p'; simpl in Hb; try discriminate Hb; inversion Hb; subst; clear Hb; fin.
+  Qed.
+
+  Theorem relpos_race_free : forall N s, reachable progs N s -> ~ race progs relpos_loc N s.
+  Proof.
+    intro N. apply (method_race_free progs relpos_loc N relpos_G relpos_A).
+    - apply relpos_init.
+    - apply relpos_local.
+    - apply relpos_interf.
+    - apply relpos_excl.
+  Qed.
+
+  Theorem relpos_serial_results : forall N s t, reachable progs N s -> halted progs t s ->
+      result s t = relpos_serial key fn t.
+  Proof.
+    intros N s t Hr Hh.
+    destruct (method_inv progs N relpos_G relpos_A relpos_init (relpos_local N) (relpos_interf N) s Hr) as [_ IA].
+    specialize (IA t). unfold halted, result, relpos_serial, relpos_progs, relpos_A, p_relpos in *.
+    destruct (thr s t) as [p rg w]; simpl pc in *.
+    destr_pc p; simpl in Hh; try discriminate Hh; fin.
+  Qed.
+End RelposP.
+
+(* the mutants the check is built to catch are racy in the model too *)
+Lemma tuple_no_once_racy : forall vN, exists s,
+  reachable (fun _ => p_names_nocheck vN) 2 s /\ race (fun _ => p_names_nocheck vN) idloc 2 s.
+Proof.
+  intro vN.
+  destruct (run (fun _ => p_names_nocheck vN) init [0;0;0]) as [s|] eqn:E; [|vm_compute in E; discriminate].
+  exists s. split.
+  - eapply run_reachable; [apply r_init| |exact E]. repeat constructor.
+  - apply (raceb_race _ _ 2 s 0 1); [lia|lia|discriminate|].
+    vm_compute in E. inversion E; subst. vm_compute. reflexivity.
+Qed.
+
+Lemma relpos_unlocked_read_racy : forall k v, exists s,
+  reachable (fun _ => p_relpos_unlocked_read k v) 2 s /\ race (fun _ => p_relpos_unlocked_read k v) relpos_loc 2 s.
+Proof.
+  intros k v.
+  destruct (run (fun _ => p_relpos_unlocked_read k v) init [0;0;0;0;0;0;0;0;0;1;1]) as [s|] eqn:E;
+    [|vm_compute in E; discriminate].
+  exists s. split.
+  - eapply run_reachable; [apply r_init| |exact E]. repeat constructor.
+  - apply (raceb_race _ _ 2 s 0 1); [lia|lia|discriminate|].
+    vm_compute in E. inversion E; subst. vm_compute. reflexivity.
+Qed.
+
